@@ -403,7 +403,7 @@ fn assign(d: &mut D, mask: u32, ty: Option<ElementType>, version: AutosarVersion
         let bits: Vec<u32> = (0..8).filter(|b| mask & (1 << b) != 0).collect();
         let m = if sp && bits.len() > 1 {
             stats.0 += 1;
-            let container = k.item.is_none() && k.text.is_none();
+            let container = matches!(k.name.as_str(), "AR-PACKAGES" | "ELEMENTS" | "CONTAINERS" | "SUB-CONTAINERS" | "PARAMETER-VALUES" | "PORTS" | "FIBEX-ELEMENTS" | "DATA-ELEMENTS");
             let r = if container && rng.below(100) < 85 { 0 } else { rng.below(10) };
             if r < 3 {
                 mask // shared by all
@@ -823,6 +823,23 @@ fn split_case(id: usize, rng: &mut SplitMix64, max_elements: usize, max_files: u
         .collect();
     let minv = AutosarVersion::from_val(*versions.iter().min().unwrap()).unwrap();
     let mut st = (0u64, 0u64);
+    if !mixed_versions && uniform == 0x80000 {
+        // FIBEX-ELEMENTS is splittable from 00051 on: a SYSTEM whose (unnamed) FIBEX-ELEMENT-REF-CONDITIONAL children can be split
+        let mut fe = D::new("FIBEX-ELEMENTS");
+        for k in 0..2 + rng.below(2) {
+            fe.kids.push(D::new("FIBEX-ELEMENT-REF-CONDITIONAL").kid(D::leaf("FIBEX-ELEMENT-REF", &format!("/nowhere/X{}", k)).attr("DEST", "I-SIGNAL")));
+        }
+        let sys = D::named("SYSTEM", "zz_sys").kid(fe);
+        let pkg = &mut master.kids[0].kids[0];
+        if let Some(els) = pkg.kids.iter_mut().find(|k| k.name == "ELEMENTS") {
+            els.kids.push(sys);
+        } else {
+            pkg.kids.insert(0, D::new("ELEMENTS").kid(sys));
+        }
+        let mut next = 0;
+        master.number(&mut next);
+        *stats.entry("masters_with_unnamed_children_below_splittable_parent".into()).or_insert(0) += 1;
+    }
     if mixed_versions && rng.below(3) == 0 {
         // a root-level element that exists only in newer versions (AUTOSAR is splittable)
         master.kids.insert(0, D::new("FILE-INFO-COMMENT").kid(D::new("SDGS").kid(D::new("SDG").attr("GID", "info").kid(D::leaf("SD", "x").attr("GID", "k")))));
